@@ -52,8 +52,8 @@ def run(ctx):
 
     # ---- inputs: fixed pairs first, then generated ones
     raw = [(s, d, op) for s, d, op in FIXED]
-    n_schemas = 40 if quick else 400
-    docs_per = 3 if quick else 6
+    n_schemas = 40 if quick else 160
+    docs_per = 3 if quick else 4
     for i in range(n_schemas):
         sch = gen_schema(rng, covariant=(i % 5 == 4))
         for _ in range(docs_per):
@@ -93,10 +93,10 @@ def run(ctx):
 
     # ---- (1) exhaustive over streams in {0,1,2}^<=L by depth-first extension of exhausted prefixes
     L = 6 if quick else 8
-    cap = 400 if quick else 3000          # per (pair, config) and round; beyond it the frontier is sampled
+    cap = 400 if quick else 1500          # per (pair, config) and round; beyond it the frontier is sampled
     states = []
     for i, p in enumerate(pairs):
-        for j in range(2 if quick else 4):
+        for j in range(2 if quick else 3):
             states.append({"pair": p, "cfg": CONFIGS[(i + j * 3) % len(CONFIGS)], "frontier": [()], "sampled": False})
     exhaustive_states = 0
     for depth in range(L + 1):
